@@ -15,6 +15,97 @@ def fn_loc(crate, p):
     return "%s:%s" % (f.file, f.line)
 
 
+def _pos_is_base_xor_key2(pos):
+    pos = strip_casts(pos)
+    ok = (pos[0] == "call" and short(pos[1]) == "bitxor" and len(pos[2]) == 2) or \
+        (pos[0] == "binop" and pos[1] == "BitXor")
+    if ok:
+        xa, xb = (pos[2][0], pos[2][1]) if pos[0] == "call" else (pos[2], pos[3])
+        a0, a1 = strip_casts(xa), strip_casts(xb)
+        ok = (a0[0] == "ap" and a0[1].proj[:2] == ("bases", "[]")) and \
+            (a1[0] == "call" and short(a1[1]) == "get" and a1[2][0] == ("ap", AP(("arg", 3)))
+             or a1 == ("ap", AP(("arg", 3), ("0",))))
+    return ok
+
+
+def _retrieve_combinator(ctx, crate, E, fa, S, p):
+    """retrieve_cost written with Option combinators:
+    `checks.get(pos).filter(|&&c| c == key1).map(|_| costs[pos])`. The cost is read in the closure
+    of `map`, which runs only when the closure of `filter` held; both obligations are read from
+    the two closures and the receiver chain. Returns False when the function is not of that form."""
+    for b, t in fa.calls():
+        nm = {strip_generics(x).rsplit("::", 1)[-1] for x in callee_paths(t)}
+        if "map" not in nm or len(t["args"]) != 2:
+            continue
+        mcl = E.closure_of_operand(fa, t["args"][1])
+        if mcl is None:
+            continue
+        mfa = E.fa(mcl[0])
+        MS = Sym(E, mfa)
+        creads = []
+        for cb, ct in mfa.calls():
+            if any(strip_generics(x).endswith("Index::index") for x in callee_paths(ct)) and len(ct["args"]) == 2:
+                ap = E.ap_operand(mfa, ct["args"][0])
+                pm = Effects.map_closure_ap(ap, mcl[1]) if ap is not None else None
+                if pm == AP(("arg", 1), ("costs",)):
+                    creads.append((cb, ct))
+        if len(creads) != 1:
+            continue
+        # the position used inside the closure, as the enclosing function sees it
+        ipl = E.ap_operand(mfa, creads[0][1]["args"][1])
+        cost_pos = None
+        caps = None
+        for b0, i0, s0 in fa.stmts():
+            rv0 = s0.get("rv") or {}
+            if rv0.get("k") == "agg" and rv0.get("agg") == "closure" and rv0.get("closure") == mcl[0]:
+                caps = rv0["ops"]
+        if ipl is not None and ipl.root == ("arg", 1) and ipl.proj and str(ipl.proj[0]).startswith("#") and caps:
+            k = int(str(ipl.proj[0])[1:])
+            cost_pos = S.operand(caps[k]) if k < len(caps) else None
+        # receiver: filter(get(checks, pos), F)
+        ro = fa.origin(t["args"][0])
+        guarded, same = False, False
+        if ro[0] == "call" and "filter" in {strip_generics(x).rsplit("::", 1)[-1] for x in callee_paths(ro[2])}:
+            fcl = E.closure_of_operand(fa, ro[2]["args"][1]) if len(ro[2]["args"]) == 2 else None
+            go = fa.origin(ro[2]["args"][0])
+            if fcl is not None and go[0] == "call" and \
+                    S.operand(go[2]["args"][0]) == ("ap", AP(("arg", 1), ("checks",))) and len(go[2]["args"]) == 2:
+                same = cost_pos is not None and S.operand(go[2]["args"][1]) == cost_pos
+                ffa = E.fa(fcl[0])
+                FS = Sym(E, ffa)
+                r = FS.place({"l": 0, "p": []})
+                fcaps = None
+                for b0, i0, s0 in fa.stmts():
+                    rv0 = s0.get("rv") or {}
+                    if rv0.get("k") == "agg" and rv0.get("agg") == "closure" and rv0.get("closure") == fcl[0]:
+                        fcaps = [S.operand(x) for x in rv0["ops"]]
+                if r[0] == "binop" and r[1] == "Eq":
+                    sides = [strip_casts(x) for x in (r[2], r[3])]
+                    chk = [x for x in sides if x[0] == "ap" and x[1].root == ("arg", 2)]
+                    key = []
+                    for x in sides:
+                        y = x
+                        if y[0] == "call" and short(y[1]) == "get" and y[2]:
+                            y = strip_casts(y[2][0])
+                        if y[0] == "ap" and y[1].root == ("arg", 1) and y[1].proj and fcaps:
+                            kk = int(str(y[1].proj[0])[1:]) if str(y[1].proj[0]).startswith("#") else None
+                            if kk is not None and kk < len(fcaps) and strip_casts(fcaps[kk]) == ("ap", AP(("arg", 2))):
+                                key.append(x)
+                    guarded = bool(chk) and bool(key)
+        ctx.ob("SCORERCHK", "A|retrieve_cost|cost-read-guarded-by-check==key1", guarded, mfa.loc(creads[0][0]),
+               "costs[pos] is read only in the closure applied after `filter(check == key1)` held (a "
+               "colliding slot of another first key is never returned)" if guarded else
+               "costs[pos] can be read without checks[pos] == key1: colliding positions of the XOR "
+               "double array return another feature pair's cost")
+        okpos = cost_pos is not None and _pos_is_base_xor_key2(cost_pos)
+        ctx.ob("SCORERCHK", "A|retrieve_cost|same-pos=base^key2", same and okpos, mfa.loc(creads[0][0]),
+               "check and cost are read at the same position bases[key1] ^ key2" if same and okpos else
+               "check and cost positions differ or pos is not bases[key1] ^ key2 (%s)"
+               % (show(cost_pos) if cost_pos else "?"))
+        return True
+    return False
+
+
 def portable(ctx):
     crate = ctx.facts("A").lib
     E = Effects(crate)
@@ -26,53 +117,59 @@ def portable(ctx):
              if any(strip_generics(x).endswith("Index::index") or strip_generics(x).endswith("slice::get")
                     for x in callee_paths(t))
              and S.operand(t["args"][0]) == ("ap", AP(("arg", 1), ("costs",)))]
-    if len(reads) != 1:
+    if not reads and _retrieve_combinator(ctx, crate, E, fa, S, p):
+        reads = None
+    elif len(reads) != 1:
         raise EngineError("SCORERCHK: expected one read of costs in retrieve_cost")
-    rb, rt = reads[0]
-    guard = None
-    for b in sorted(fa.live_blocks()):
-        t = fa.term(b)
-        if t["k"] != "switch":
-            continue
-        e = S.operand(t["op"])
-        if e[0] == "binop" and e[1] in ("Eq", "Ne"):
-            sides = [strip_casts(x) for x in (e[2], e[3])]
-            has_check = [x for x in sides if x[0] == "ap" and x[1].proj[:2] == ("checks", "[]")]
-            has_key1 = [x for x in sides if (x[0] == "call" and short(x[1]) == "get" and x[2]
-                                            and x[2][0] == ("ap", AP(("arg", 2))))
-                        or x == ("ap", AP(("arg", 2))) or x == ("ap", AP(("arg", 2), ("0",)))]
-            if has_check and has_key1:
-                f_t, t_t = bool_switch_targets(t)
-                eq_t = t_t if e[1] == "Eq" else f_t
-                guard = (b, eq_t)
-    ok = False
-    if guard:
-        gb, eq_t = guard
-        fa2 = FnA(fa.fn, removed={(gb, eq_t)})
-        ok = rb not in fa2.reachable(0)
-    ctx.ob("SCORERCHK", "A|retrieve_cost|cost-read-guarded-by-check==key1", ok, fa.loc(rb),
-           "costs[pos] is read only on the branch where checks[pos] == key1 (a colliding slot of "
-           "another first key is never returned)" if ok else
-           "costs[pos] can be read without checks[pos] == key1: colliding positions of the XOR "
-           "double array return another feature pair's cost")
-    # same position for check and cost, pos = base ^ key2
-    idx_cost = S.operand(rt["args"][1])
-    chk_reads = [(b, t) for b, t in fa.calls()
-                 if S.operand(t["args"][0]) == ("ap", AP(("arg", 1), ("checks",)))
-                 and len(t["args"]) > 1] if True else []
-    same = any(S.operand(t["args"][1]) == idx_cost for b, t in chk_reads)
-    pos = strip_casts(idx_cost)
-    okpos = (pos[0] == "call" and short(pos[1]) == "bitxor" and len(pos[2]) == 2) or \
-        (pos[0] == "binop" and pos[1] == "BitXor")
-    if okpos:
-        xa, xb = (pos[2][0], pos[2][1]) if pos[0] == "call" else (pos[2], pos[3])
-        a0, a1 = strip_casts(xa), strip_casts(xb)
-        okpos = (a0[0] == "ap" and a0[1].proj[:2] == ("bases", "[]")) and \
-            (a1[0] == "call" and short(a1[1]) == "get" and a1[2][0] == ("ap", AP(("arg", 3)))
-             or a1 == ("ap", AP(("arg", 3), ("0",))))
-    ctx.ob("SCORERCHK", "A|retrieve_cost|same-pos=base^key2", same and okpos, fa.loc(rb),
-           "check and cost are read at the same position bases[key1] ^ key2" if same and okpos else
-           "check and cost positions differ or pos is not bases[key1] ^ key2 (%s)" % show(idx_cost))
+    if reads is None:
+        rb = rt = None
+    else:
+        rb, rt = reads[0]
+    if rt is not None:
+        guard = None
+        for b in sorted(fa.live_blocks()):
+            t = fa.term(b)
+            if t["k"] != "switch":
+                continue
+            e = S.operand(t["op"])
+            if e[0] == "binop" and e[1] in ("Eq", "Ne"):
+                sides = [strip_casts(x) for x in (e[2], e[3])]
+                has_check = [x for x in sides if x[0] == "ap" and x[1].proj[:2] == ("checks", "[]")]
+                has_key1 = [x for x in sides if (x[0] == "call" and short(x[1]) == "get" and x[2]
+                                                and x[2][0] == ("ap", AP(("arg", 2))))
+                            or x == ("ap", AP(("arg", 2))) or x == ("ap", AP(("arg", 2), ("0",)))]
+                if has_check and has_key1:
+                    f_t, t_t = bool_switch_targets(t)
+                    eq_t = t_t if e[1] == "Eq" else f_t
+                    guard = (b, eq_t)
+        ok = False
+        if guard:
+            gb, eq_t = guard
+            fa2 = FnA(fa.fn, removed={(gb, eq_t)})
+            ok = rb not in fa2.reachable(0)
+        ctx.ob("SCORERCHK", "A|retrieve_cost|cost-read-guarded-by-check==key1", ok, fa.loc(rb),
+               "costs[pos] is read only on the branch where checks[pos] == key1 (a colliding slot of "
+               "another first key is never returned)" if ok else
+               "costs[pos] can be read without checks[pos] == key1: colliding positions of the XOR "
+               "double array return another feature pair's cost")
+        # same position for check and cost, pos = base ^ key2
+        idx_cost = S.operand(rt["args"][1])
+        chk_reads = [(b, t) for b, t in fa.calls()
+                     if S.operand(t["args"][0]) == ("ap", AP(("arg", 1), ("checks",)))
+                     and len(t["args"]) > 1] if True else []
+        same = any(S.operand(t["args"][1]) == idx_cost for b, t in chk_reads)
+        pos = strip_casts(idx_cost)
+        okpos = (pos[0] == "call" and short(pos[1]) == "bitxor" and len(pos[2]) == 2) or \
+            (pos[0] == "binop" and pos[1] == "BitXor")
+        if okpos:
+            xa, xb = (pos[2][0], pos[2][1]) if pos[0] == "call" else (pos[2], pos[3])
+            a0, a1 = strip_casts(xa), strip_casts(xb)
+            okpos = (a0[0] == "ap" and a0[1].proj[:2] == ("bases", "[]")) and \
+                (a1[0] == "call" and short(a1[1]) == "get" and a1[2][0] == ("ap", AP(("arg", 3)))
+                 or a1 == ("ap", AP(("arg", 3), ("0",))))
+        ctx.ob("SCORERCHK", "A|retrieve_cost|same-pos=base^key2", same and okpos, fa.loc(rb),
+               "check and cost are read at the same position bases[key1] ^ key2" if same and okpos else
+               "check and cost positions differ or pos is not bases[key1] ^ key2 (%s)" % show(idx_cost))
     # accumulate_cost sums retrieve_cost over zipped lanes
     p2 = SC + "Scorer::accumulate_cost"
     fa = E.fa(p2)
